@@ -191,9 +191,15 @@ impl Ctx {
         for v in &self.violations {
             let dir = format!("{}/replays/{}", VERIF_DIR, self.id);
             let _ = std::fs::create_dir_all(&dir);
-            let name = format!("{}/viol_{:016x}.json", dir, digest(&v.key));
-            let body = json!({"property": self.id, "key": v.key, "what": v.what, "seed": self.seed, "tier": self.tier.name(), "replay": v.replay});
-            let _ = std::fs::write(&name, serde_json::to_string_pretty(&body).unwrap());
+            let name = match std::env::var("VERIF_REPLAY_FILE") {
+                Ok(f) => f, // replay mode: the given file is the replay
+                Err(_) => {
+                    let name = format!("{}/viol_{:016x}.json", dir, digest(&v.key));
+                    let body = json!({"property": self.id, "key": v.key, "what": v.what, "seed": self.seed, "tier": self.tier.name(), "replay": v.replay});
+                    let _ = std::fs::write(&name, serde_json::to_string_pretty(&body).unwrap());
+                    name
+                }
+            };
             println!("VIOLATION property={} replay={}", self.id, name);
             println!("  key={} :: {}", v.key, v.what);
             viol_out.push(json!({"key": v.key, "what": v.what, "replay": name}));
